@@ -473,8 +473,6 @@ def gen_cmp(rng):
         t = (now - su if which == 'older' else now + su) + rng.choice([0, 0, 0, 1, -1, 1, -1, 2, -2, 10**6, -10**6, rng.randint(-10**7, 10**7)])
     if not in_rng(t): t = min(MAX_US, max(0, t))
     targ = as_targ(rng, t)
-    if which == 'soon' and 's' in targ and rng.random() < 0.9:      # is_soon does not take strings (finding soon-str): keep these rare
-        targ = {'d': {'w': t, 'tz': None}}
     return case('cmp', [[which, targ, s]], ov={'k': 'one', 'd': {'w': now, 'tz': None}})
 
 def gen_fixture(rng):
@@ -554,7 +552,6 @@ def fixed_cases():
                 t = (now - su if which == 'older' else now + su) + dlt
                 for targ in ({'d': {'w': t, 'tz': None}}, {'d': {'w': t + 1439 * MIN, 'tz': ['fixed', 1439 * MIN]}}, {'d': {'w': t - 1439 * MIN, 'tz': ['fixed', -1439 * MIN]}},
                              {'s': (DMIN + TD(microseconds=t)).isoformat()}, {'s': (DMIN + TD(microseconds=t + 330 * MIN)).replace(tzinfo=_dtm.timezone(TD(minutes=330))).isoformat()}):
-                    if which == 'soon' and 's' in targ: continue
                     out.append(case('cmp', [[which, targ, s]], ov={'k': 'one', 'd': {'w': now, 'tz': None}}))
     for w in (0, 1, MAX_US, MAX_US - 1, us_of(1970, 1, 1), us_of(1970, 1, 1) - 1, us_of(2024, 2, 29, 23, 59, 59, 999999)):
         out.append(case('clock', [['now', False], ['ts', False], ['ts', True], ['advs', 1], ['now', False], ['adv', -1], ['now', False], ['marsh', None]],
@@ -704,7 +701,6 @@ def extra_checks(rng, tier):
 
 def zone(c):
     kind = c.get('kind')
-    if kind == 'cmp' and c['cmds'][0][0] == 'soon' and 's' in c['cmds'][0][1]: return 'soon-str'
     if kind == 'iso':
         off = mkdt(c['cmds'][0][1]).utcoffset()
         if off is not None and (off // US) % MIN: return 'iso-submin'
@@ -729,8 +725,8 @@ LEVEL_TEXT = ('Unbounded theorems (Coq) about the statement-by-statement transla
               'under a scalar override utcnow returns it, utcnow_ts is (wall div 10^6) - 62135596800 resp. that plus microsecond/10^6 exactly, any '
               'sequence of advance_time_delta/seconds moves the instant by the exact sum (induction), OverflowError moves nothing; is_older_than / '
               'is_newer_than / is_soon hold iff now - t > s, t - now > s, t <= now + w for naive, aware and parser-resolved string t. '
-              'iso8601 and isoformat are modelled for the isoformat() shape and proved inverse for whole-minute offsets. Two clauses are refuted '
-              'with witnesses replayed on the implementation: is_soon with a string (AttributeError), isoformat() of sub-minute offsets (ValueError).')
+              'iso8601 and isoformat are modelled for the isoformat() shape and proved inverse for whole-minute offsets. One clause is refuted '
+              'with a witness replayed on the implementation: isoformat() of sub-minute offsets (ValueError from parse_isotime).')
 LEVEL_NOTE = ('Trusted: Coq kernel; tools/gen/gen_C12.py (typed AST translation; four idiomatic functions recognised as whole-AST templates); CPython datetime '
               'arithmetic as modelled in Model/C12_Prim.v (tied by the correspondence: fields, constructor validation, overflow, naive/aware TypeError); '
               'timedelta(seconds=float) rounding, float arithmetic of utcnow_ts/total_seconds, utcoffset()/tzname() of tzinfo objects, zoneinfo and iso8601 '
